@@ -1168,7 +1168,8 @@ class Curve(BaseCurve):
             nodes_0to1 = heavy.NodeSample.closed_linspace(max(2, len(points)))
             if len(points) == 1:
                 nodes_0to1 = nodes_0to1[:1]
-            nodes = tuple(umin + (umax - umin) * node for node in nodes_0to1)
+            # Exact at both ends: umin + (umax - umin) can pass umax by rounding
+            nodes = tuple((1 - node) * umin + node * umax for node in nodes_0to1)
         knotvector = tuple(self.knotvector)
         nodes = tuple(nodes)
         weights = None if self.weights is None else tuple(self.weights)
